@@ -189,9 +189,20 @@ def write_evidence(pid, tier, seed, level, cov, wall, violations):
 def classify(pid, reports, trace, kf_open):
     """Splits reports into violations / known findings / unrelated / tool errors."""
     viol, known, other, tool = [], [], [], []
+    # lines that come after an upgrade of their own scenario
+    after_upg = []
+    seen_upg = False
+    for r in trace:
+        if r.get("ev") == "universe":
+            seen_upg = False
+        after_upg.append(seen_upg)
+        if r.get("ev") == "upgrade":
+            seen_upg = True
     for rep in reports:
         kind = rep.get("kind")
         rec = trace[rep["l"] - 1] if "l" in rep and 0 < rep["l"] <= len(trace) else None
+        if rec is not None and after_upg[rep["l"] - 1]:
+            rep["after_upg"] = True
         if kind in ("TOOLERROR", "TLCERROR", "UNCONSUMED"):
             tool.append(rep)
         elif kind == "KNOWN":
